@@ -114,16 +114,17 @@ Theorem C20_clean_refuted :
     galone name gen compile behave ginvs fs0 0 = Some ("env/m", 0%Z).
 Proof. exact clean_refuted_ex. Qed.
 
-(* nor to a run in <dir> next to a run in <dir>/magefiles: Invoke removes a stale generated file in <dir>/magefiles before it
-   decides which directory it uses, so the invocation in <dir> (which has magefiles of its own) deletes the file the other
-   one is about to compile; the one in <dir> itself is not affected *)
-Theorem C20_magefiles_subdir_refuted :
+(* BEFORE fix 62b109f (switch [g_sub := Some _]; the current tree is [g_sub := None]): Invoke removed a stale generated file in
+   <dir>/magefiles before deciding which directory it uses, so an invocation in <dir> (which has magefiles of its own)
+   deleted the file a concurrent invocation in <dir>/magefiles was about to compile; the one in <dir> itself was not
+   affected.  Found by this unit's gated launches, repaired in /repo. *)
+Theorem C20_magefiles_subdir_before_repair_refuted :
   exists name gen compile behave ginvs fs0 sched,
     NoDup (map (fun g => i_dir (g_inv g)) ginvs) /\
     result_of (grun name gen compile behave ginvs fs0 sched) 1 = Some fail /\
     galone name gen compile behave ginvs fs0 1 = Some ("env/m", 0%Z) /\
     result_of (grun name gen compile behave ginvs fs0 sched) 0 = galone name gen compile behave ginvs fs0 0.
-Proof. exact magefiles_subdir_refuted_ex. Qed.
+Proof. exact magefiles_subdir_before_repair_refuted_ex. Qed.
 
 Print Assumptions C20_distinct_dirs.
 Print Assumptions C20_distinct_dirs_total.
@@ -138,7 +139,7 @@ Print Assumptions C20_shared_entry_refuted.
 Print Assumptions C20_general_restricts.
 Print Assumptions C20_general_no_blocking.
 Print Assumptions C20_clean_refuted.
-Print Assumptions C20_magefiles_subdir_refuted.
+Print Assumptions C20_magefiles_subdir_before_repair_refuted.
 
 (* non-vacuity: three invocations in three directories, two with identical magefiles (one shared
    cache entry), one of them in hash mode, interleaved round-robin: the hypotheses of
